@@ -36,6 +36,13 @@ Theorem C08_trunc_partial : forall d, wellformed1 d = true ->
 Proof. exact truncated_rejected. Qed.
 Print Assumptions C08_trunc_partial.
 
+(* an export that fails in the middle of a self-iterating container of the document is invisible to every later
+   iteration, provided every iteration starts by rewinding every field an iteration modifies *)
+Theorem C08_aborted_iteration_invisible_partial : forall t, iter_ok t = true -> forall c m z, In (c, m, z) t ->
+    forall s1 s2 : cstate, (forall f, mem_str f m = false -> s1 f = s2 f) -> forall f, rewind z s1 f = rewind z s2 f.
+Proof. exact iter_table_ok. Qed.
+Print Assumptions C08_aborted_iteration_invisible_partial.
+
 (* INSTANCE *)
 From Run Require Import Gen_C08 Inst_C08.
 
@@ -45,3 +52,8 @@ Theorem C08_entries_clean_partial : forall name mode skel, In (name, mode, skel)
     clean_call (in_mode mode skel).
 Proof. exact (entries_clean Gen_C08.entries Inst_C08.all_ok). Qed.
 Print Assumptions C08_entries_clean_partial.
+
+Theorem C08_document_iterators_rewind_partial : forall c m z, In (c, m, z) Gen_C08.iter_state ->
+    forall s1 s2 : cstate, (forall f, mem_str f m = false -> s1 f = s2 f) -> forall f, rewind z s1 f = rewind z s2 f.
+Proof. exact (iter_table_ok Gen_C08.iter_state Inst_C08.iter_state_ok). Qed.
+Print Assumptions C08_document_iterators_rewind_partial.
